@@ -64,7 +64,11 @@ Inductive pipe :=
 | PStage (s : stage) (p : pipe)
 | PApp (p q : pipe)                             (* list + list: iterator.Append *)
 | PCross (id : N) (g : fn2) (p q : pipe)        (* p.cross(q, g): iterator.Cross: for a in p { for b in q { yield g(a,b) } } *)
-| PMerge (id : N) (less : pr2) (p q : pipe).    (* p.merge(q, less): iterator.Merge (sequential abstraction, see next) *)
+| PMerge (id : N) (less : pr2) (p q : pipe)     (* p.merge(q, less): iterator.Merge (sequential abstraction, see next) *)
+| PThrough (ctx : N) (p : pipe).                (* the list passes through a language construct that must not consume it:
+                                                   try .. catch, let, if/then/else, switch, a closure or func that returns
+                                                   its argument, a map field, a list element, a host function argument
+                                                   (ctx only names the construct; the list value is handed on unchanged) *)
 
 (* local state of one stage: a counter and up to two remembered values *)
 Record sst := mk_sst { cnt : Z; lastv : option Z; lastr : option Z }.
@@ -94,6 +98,7 @@ Fixpoint init (p : pipe) : pstate :=
   | PApp p1 p2 => QApp false (init p1) (init p2)
   | PCross _ _ p1 p2 => QCross None (init p1) (init p2)
   | PMerge _ _ p1 p2 => QMerge false false None None (init p1) (init p2)
+  | PThrough _ p' => init p'
   end.
 
 Definition build (p : pipe) : eff pstate := ([], init p).
@@ -270,6 +275,7 @@ Fixpoint next (p : pipe) (q : pstate) {struct p} : eff step :=
               end
           end
       end
+  | PThrough _ p', _ => next p' q          (* identity: the construct returns the *List it was given *)
   | _, _ => ([], Fail e_state)
   end.
 
@@ -426,6 +432,7 @@ Fixpoint occ_pipe (id : N) (p : pipe) : nat :=
   | PStage s p' => (occ_stage id s + occ_pipe id p')%nat
   | PApp p1 p2 => (occ_pipe id p1 + occ_pipe id p2)%nat
   | PCross i _ p1 p2 | PMerge i _ p1 p2 => (b2n (N.eqb i id) + occ_pipe id p1 + occ_pipe id p2)%nat
+  | PThrough _ p' => occ_pipe id p'
   end.
 
 Definition occ_term (id : N) (t : term) : nat :=
@@ -607,6 +614,7 @@ Fixpoint spec_pipe (N : nat) (p : pipe) : partial :=
       let (la, sta) := spec_pipe N p1 in
       let (lb, stb) := spec_pipe N p2 in
       spec_merge (S (length la + length lb)) less la lb sta stb
+  | PThrough _ p' => spec_pipe N p'
   end.
 
 (* scan for the first item that decides present / indexWhere *)
@@ -691,6 +699,7 @@ Fixpoint ids_pipe (p : pipe) : list N :=
   | PStage s p' => ids_stage s ++ ids_pipe p'
   | PApp p1 p2 => ids_pipe p1 ++ ids_pipe p2
   | PCross i _ p1 p2 | PMerge i _ p1 p2 => i :: ids_pipe p1 ++ ids_pipe p2
+  | PThrough _ p' => ids_pipe p'
   end.
 
 Definition ids_term (t : term) : list N :=
@@ -715,6 +724,7 @@ Fixpoint spec_inputs (pre : nat) (p : pipe) : list (N * nat) :=
   | PMerge i _ p1 p2 =>
       (i, (length (fst (spec_pipe pre p1)) + length (fst (spec_pipe pre p2)))%nat)
         :: spec_inputs pre p1 ++ spec_inputs pre p2
+  | PThrough _ p' => spec_inputs pre p'
   end.
 
 Definition spec_bound (pre : nat) (t : term) (p : pipe) (id : N) : nat :=
